@@ -17,6 +17,8 @@ CHECKS = {
          "Real chain to 556766, then thousands of offers at 556767 (BSV, BCH, generated) on main chain and forks; VerifyHeader table; peer side: verified iff first header is the BSV split header.", "3/C03"),
  "C04": ("fault_enumeration", "fault injection: every single-point corruption and fault point of generated blocks delivered to the real BlockDownloader (recording processor / store); proofs re-verified by a reference merkle implementation; end-to-end slice through a real node over loopback; race detector",
          "Exhaustive single-point corruption and fault-point enumeration for small blocks, sampled for larger ones; the oracle is the implication effects => (header, count, merkle root all verified) plus order/identity/proof validity of the confirmations.", "3/C04"),
+ "C05": ("exploration", "runtime monitoring: offline order / exactly-once / conservation checker over the recorded block-request and processing log of a real NodeManager + BlockManager driven by a scripted, failing block source; bounded-progress check at observed quiescence; race detector",
+         "Thousands of scenarios over chain length, start height, already-processed sets, mid-round headers, source failures and reorgs with pending requests; the request log must be contiguous ascending best-chain blocks from the right first height, never below start / already processed, each processed once, and complete after the final trigger.", "3/C05"),
  "C07": ("exploration", "runtime monitoring: stream applier + set-difference oracle on the subscriber channels after every submission",
          "Announcements of every submission compared with best-chain-after minus best-chain-before for 0-3 subscribers over seeded histories with every reorg kind.", "3/C07"),
  "C08": ("exploration", "runtime monitoring: set-valued reference verdict per submission and full read-API snapshot diff around every refusal",
